@@ -5,6 +5,7 @@
    rule_gen; they are reproduced here, syntactically identical, as pdate_ok'
    and rule_gen'). *)
 From CCTZ Require Import Base SrcConstants Cal CivilImpl PosixImpl ZoneLoad ZoneSpec CalProofs WeekdayProofs.
+From CCTZ Require Export WholeDomain.
 Require Import ZifyBool.
 Local Open Scope Z_scope.
 Ltac Zify.zify_post_hook ::= Z.to_euclidean_division_equations.
@@ -16,16 +17,6 @@ Definition pdate_ok' (d : pdate) : bool :=
   | DM m w wd => (1 <=? m) && (m <=? 12) && (1 <=? w) && (w <=? 5) && (0 <=? wd) && (wd <=? 6)
   end.
 
-Fixpoint rule_gen' (r : rule) (std_ti dst_ti : Z) (last_time : Z) (Y : Z) (n : nat) : list (Z * Z) :=
-  match n with
-  | O => []
-  | S k =>
-      let a := (rule_start r Y, dst_ti) in
-      let b := (rule_end r Y, std_ti) in
-      let '(ta, tb) := if fst a <? fst b then (a, b) else (b, a) in
-      (if last_time <? fst tb then (if last_time <? fst ta then [ta; tb] else [tb]) else [])
-      ++ rule_gen' r std_ti dst_ti last_time (Y + 1) k
-  end.
 
 (* ------------------------------------------------------------------ *)
 (* date_yday depends on the year only through (leap, weekday of Jan 1)  *)
